@@ -204,9 +204,12 @@ def e3(ctx):
         """A tree / index entry is assigned a value containing `<that blob>.id`."""
         for n in cfg.stmt_nodes():
             if n.kind == "stmt" and isinstance(n.ast, ast.Assign) and any(isinstance(t, ast.Subscript) for t in n.ast.targets):
-                for x in ast.walk(n.ast.value):
-                    if isinstance(x, ast.Attribute) and x.attr == "id" and same_blob(cfg, du, n, x.value, keys):
-                        return True
+                # the entry value, also when it was built in a local first (`new_entry = (mode, b.id)`)
+                vals = [(n, n.ast.value)] + [(o.node or n, o.leaf) for o in origins(du, n, n.ast.value) if o.kind == "expr" and o.leaf is not None]
+                for at, val in vals:
+                    for x in ast.walk(val):
+                        if isinstance(x, ast.Attribute) and x.attr == "id" and same_blob(cfg, du, at, x.value, keys):
+                            return True
         return False
 
     bare = ctx.own_method("xandikos.store.git.BareGitStore", "_import_one")
